@@ -87,13 +87,13 @@ class ExprC:
                 if c[1] not in ("optint", "optres") or not c[2]:
                     fail("`is None` on a non-optional", n)
                 return ("({}{}.isNone)".format("!" if isinstance(op, ast.IsNot) else "", c[0]), "bool", True)
-            if isinstance(op, ast.In):
+            if isinstance(op, (ast.In, ast.NotIn)):
                 c = self.expr(l)
                 if not isinstance(r, (ast.List, ast.Tuple, ast.Set)) or not all(isinstance(e, ast.Constant) and isinstance(e.value, str) for e in r.elts):
                     fail("`in` needs a literal list of strings", n)
                 if c[1] != "str" or not c[2]:
                     fail("`in` on a non-string", n)
-                return ("([{}].contains {})".format(", ".join(lean_str(e.value) for e in r.elts), c[0]), "bool", True)
+                return ("({}[{}].contains {})".format("!" if isinstance(op, ast.NotIn) else "", ", ".join(lean_str(e.value) for e in r.elts), c[0]), "bool", True)
             a, b = self.expr(l), self.expr(r)
             sym = {ast.Lt: "<", ast.LtE: "≤", ast.Gt: ">", ast.GtE: "≥", ast.Eq: "==", ast.NotEq: "!="}.get(type(op))
             if sym is None:
@@ -135,6 +135,12 @@ class ExprC:
         if (isinstance(n, ast.Attribute) and n.attr == "number" and isinstance(n.value, ast.Subscript)
                 and ast.unparse(n.value) == "atom.symbol.arguments[-1]" and "lastArg" in self.env.types):
             return ("lastArg", "int", True)
+        if (isinstance(n, ast.Call) and isinstance(n.func, ast.Attribute) and n.func.attr == "upper" and not n.args
+                and not n.keywords):
+            c = self.expr(n.func.value)
+            if c[1] != "str" or not c[2]:
+                fail("upper() of a non-string", n)
+            return ("(pyUpper {})".format(c[0]), "str", True)
         if isinstance(n, ast.Call) and isinstance(n.func, ast.Name) and n.func.id == "len" and len(n.args) == 1:
             c = self.expr(n.args[0])
             if c[1] != "str":
@@ -314,6 +320,9 @@ def compile_parser(fn, attr, ty):
                     state["rawty"] = "int"
                 elif isinstance(v, ast.Call) and ast.unparse(v) == "value.upper()":
                     lines.append(indent + "let x := pyUpper value")
+                    state["cur"] = "x"; state["rawty"] = "str"
+                elif isinstance(v, ast.Name) and v.id == "value" and ty == "str":
+                    lines.append(indent + "let x := value")
                     state["cur"] = "x"; state["rawty"] = "str"
                 elif is_none(v):
                     state["cur"] = "none"; state["rawty"] = "none"
